@@ -101,19 +101,26 @@ def oracle(case, impl, spec):
             return 'step %d: outcome %s, specification says %s' % (n, out, b[0])
         if ln != b[1]:
             return 'step %d: len %s, specification says %s' % (n, ln, b[1])
-        if fwd != b[2]:
+        if '!' in shape:
+            return 'step %d: not a valid red-black tree: %s' % (n, parse_shape(shape)['ok'])
+        want = b[2].split(',') if b[2] else []
+        got = fwd.split(',') if fwd else []
+        # "strictly monotone key order": the specification keeps the bindings in DESCENDING key order (what the
+        # code does today); a consistently ascending implementation would satisfy the property text as well
+        if got != want and got != want[::-1]:
             return 'step %d: forward iteration / get yields %s, ordered bindings are %s' % (n, fwd, b[2])
-        keys = [kv.split('=')[0] for kv in fwd.split(',')] if fwd else []
+        keys = [kv.split('=')[0] for kv in got]
         kv = [keyval(kt, k) for k in keys]
-        if any(not (x > y) for x, y in zip(kv, kv[1:])):
-            return 'step %d: forward iteration %s is not strictly descending' % (n, fwd)
+        if any(not (x > y) for x, y in zip(kv, kv[1:])) and any(not (x < y) for x, y in zip(kv, kv[1:])):
+            return 'step %d: forward iteration %s is not strictly monotone' % (n, fwd)
         if (bwd.split(',') if bwd else []) != keys[::-1]:
             return 'step %d: backward iteration %s is not the reverse of forward iteration %s' % (n, bwd, ','.join(keys))
         sh = parse_shape(shape)
         if sh['ok']:
             return 'step %d: not a valid red-black tree: %s' % (n, sh['ok'])
-        if ','.join('%s=%s' % x for x in sh['items']) != b[2]:
-            return 'step %d: in-order contents of the tree %s differ from the ordered bindings %s' % (n, sh['items'], b[2])
+        ino = ['%s=%s' % x for x in sh['items']]
+        if ino != got and ino != got[::-1]:
+            return 'step %d: in-order contents of the tree %s differ from the ordered bindings %s' % (n, ','.join(ino), b[2])
         if 2 ** sh['height'] > (sh['n'] + 1) ** 2:
             return 'step %d: height %d exceeds 2*log2(%d+1)' % (n, sh['height'], sh['n'])
     if len(pi) != len(ps):
@@ -354,7 +361,7 @@ def run(ctx):
     ctx.coq()
     drv = ctx.build_driver('Tree')
     h = ctx.build_harness('tree_wb.c', whitebox='Tree')
-    run_impl = lambda cs: ctx.run_lines(h, cs)[1]
+    run_impl = lambda cs: ctx.run_lines(h, cs, env=dict(os.environ, H_TIMEOUT='6'))[1]
     run_model = lambda cs: ctx.run_lines(drv, cs, args=['model'])[1]
     run_spec = lambda cs: ctx.run_lines(drv, cs, args=['spec'])[1]
     d = vlib.Differential(ctx, 'tree', run_impl, run_model, run_spec, oracle, corr, nontrivial, split, join)
@@ -367,23 +374,31 @@ def run(ctx):
             print('REPLAY: %s\n  impl  %s\n  model %s\n  spec  %s' % (x[4], x[1], x[2], x[3]))
         d.report()
         return
-    feed(CORPUS, 'corpus')
     n = 850 if quick else 100000
     maxops = 80 if quick else 200
-    feed(targeted(ctx, run_model, 150 if quick else 3000, 10 if quick else 25), 'targeted')
-    for i in range(0, n, 2000):
-        feed([gen_case(ctx.rng, maxops if j % 4 else 14) for j in range(i, min(n, i + 2000))])
-    if not quick:
-        ex = exhaustive(5, 7)
-        cnt = 0
-        while True:
-            chunk = list(itertools.islice(ex, 20000))
-            if not chunk:
-                break
-            cnt += len(chunk)
-            d.feed(chunk)
-        ctx.cov['exhaustive'] = {'what': 'all sequences of 7 operations from {set k, rem k | k in 0..4}, checked after every step '
-                                         '(bounded search, not the claim)', 'cases': cnt}
+
+    def stream():
+        yield CORPUS
+        tg = targeted(ctx, run_model, 150 if quick else 3000, 10 if quick else 25)
+        yield tg[:20]
+        yield tg[20:]
+        for i in range(0, n, 2000):
+            yield [gen_case(ctx.rng, maxops if j % 4 else 14) for j in range(i, min(n, i + 2000))]
+        if not quick:
+            ex = exhaustive(5, 7)
+            cnt = 0
+            while True:
+                chunk = list(itertools.islice(ex, 20000))
+                if not chunk:
+                    break
+                cnt += len(chunk)
+                yield chunk
+            ctx.cov['exhaustive'] = {'what': 'all sequences of 7 operations from {set k, rem k | k in 0..4}, checked after '
+                                             'every step (bounded search, not the claim)', 'cases': cnt}
+    for batch in stream():
+        feed(batch)
+        if d.oracle_fail:
+            break            # a concrete failing input is in hand: report it (a hanging library makes every case slow)
     ctx.cov['case_kinds'] = dict(HIST)
 
     def extra(dd):
